@@ -178,8 +178,11 @@ class Expect:
         self.name, self.value, self.writer, self.prev, self.raw = name, value, writer, prev, raw
 
 
-def walk_model(ops: Sequence[Op]) -> Tuple[List[Any], List[str], bool]:
-    """Expected observations per op (None for non-reads), class labels, non-trivial flag."""
+def walk_model(ops: Sequence[Op], detailed: bool = True) -> Tuple[List[Any], List[str], bool]:
+    """Expected observations per op (None for non-reads), class labels, non-trivial flag.
+
+    detailed=False yields plain expected values (fast path); detailed=True yields Expect objects carrying the
+    context needed to classify a mismatch.  Both come from the same Model walk."""
     m = Model()
     writer: Dict[str, str] = {g: "nothing (fresh)" for g in MEMBERS}
     prev: Dict[str, List[int]] = {g: m.read_all() for g in MEMBERS}
@@ -188,7 +191,9 @@ def walk_model(ops: Sequence[Op]) -> Tuple[List[Any], List[str], bool]:
     labels: List[str] = []
     nt = False
 
-    def exp_of(name: str) -> Expect:
+    def exp_of(name: str) -> Any:
+        if not detailed:
+            return m.get(name)
         g = GROUP[name]
         return Expect(name, m.get(name), writer[g], prev[g][INDEX[name]], m.temp_raw.get(name))
 
@@ -229,14 +234,37 @@ def walk_model(ops: Sequence[Op]) -> Tuple[List[Any], List[str], bool]:
             out.append(exp_of(FLAG_NAME[op[1]]))
         elif verb in ("all", "rt", "rtb"):
             note_read(NAMES)
-            out.append([exp_of(n) for n in NAMES])
+            out.append([exp_of(n) for n in NAMES] if detailed else m.read_all())
             if verb != "all":
                 labels.append("roundtrip:" + verb)
         elif verb == "collect":
-            out.append(None)
+            out.append(("collect", m.read_all()))
         else:
             raise HarnessError(f"unknown op {op}")
     return out, labels, nt
+
+
+def _fast_ok(ops: Sequence[Op], exp: List[Any], py: List[Any], rs: Any) -> bool:
+    """True iff every observation of all three register files equals the model (the common case)."""
+    if not isinstance(rs, list) or len(py) != len(ops) or len(rs) != len(ops):
+        return False
+    try:
+        for op, e, p, r in zip(ops, exp, py, rs):
+            verb = op[0]
+            if verb in ("get", "getflag"):
+                if p != e or r != [e, e]:
+                    return False
+            elif verb == "all":
+                if p != e or r["st"] != e or r["rt"] != e:
+                    return False
+            elif verb in ("rt", "rtb"):
+                if p["before"] != e or p["after"] != e:
+                    return False
+                if r["before"]["st"] != e or r["after"]["st"] != e or r["before"]["rt"] != e or r["after"]["rt"] != e:
+                    return False
+    except (KeyError, TypeError, IndexError):
+        return False
+    return True
 
 
 def _classify(e: Expect, got: int) -> str:
@@ -244,9 +272,7 @@ def _classify(e: Expect, got: int) -> str:
         return "extra high bits (not truncated to %d bits)" % WIDTH[e.name]
     if got == e.prev:
         return "stale (write not reflected)"
-    if got == 0:
-        return "zero"
-    return "other value"
+    return "wrong value"
 
 
 def _temp_width_explains(e: Expect, got: int) -> bool:
@@ -306,12 +332,15 @@ def check_impl(impl: str, ops: Sequence[Op], exp: List[Any], obs: List[Any], cas
                 if v:
                     out.append(v)
             if not out:
-                for n, b, a in zip(NAMES, o["before"], o["after"]):
-                    if a != b:
-                        cls = "zero" if a == 0 else ("extra high bits" if (a & mask(n)) == b else "other value")
-                        kind = "direct" if verb == "rt" else "blob"
+                bad = {n: (b, a) for n, b, a in zip(NAMES, o["before"], o["after"]) if a != b}
+                kind = "direct" if verb == "rt" else "blob"
+                for g, members in MEMBERS.items():
+                    mb = [n for n in members if n in bad]
+                    # one verdict per backing store; aliases only when the full register itself came back right
+                    for n in ([g] if g in mb else mb):
+                        b, a = bad[n]
                         out.append(Violation("roundtrip", f"{impl} {kind} snapshot: {_fp_name(n)}",
-                                             f"value not reproduced: {cls}", case,
+                                             "value not reproduced", case,
                                              f"op#{i} {op}: {impl} {n} read {b:#x} before the snapshot round trip "
                                              f"and {a:#x} after applying it to a fresh register file"))
         if out:
@@ -345,12 +374,29 @@ def check_temp_diff(ops: Sequence[Op], all_obs: Dict[str, List[Any]], case: Dict
     return []
 
 
+def _to_dict_labels(ops: Sequence[Op], exp: List[Any], py: List[Any]) -> List[str]:
+    """Informational only: does the snapshot's dictionary form show the values the reads return?"""
+    out: List[str] = []
+    for i, op in enumerate(ops):
+        if op[0] == "collect" and i < len(py) and isinstance(py[i], dict) and "error" not in py[i]:
+            vals = exp[i][1]
+            same = all(py[i].get(k.lower()) == vals[INDEX[k]] for k in ("PC", "BA", "I", "X", "Y", "U", "S", "F"))
+            out.append("py-to_dict:" + ("matches-reads" if same else "differs-from-reads"))
+    return out
+
+
 def evaluate(ops: Sequence[Op], rs_res: Dict[str, Any]) -> Tuple[List[Violation], List[str], bool]:
+    plain, labels, nt = walk_model(ops, detailed=False)
+    py_obs = py_run(ops)
+    labels += _to_dict_labels(ops, plain, py_obs)
+    if _fast_ok(ops, plain, py_obs, rs_res.get("obs")):
+        return [], labels, nt
+    # slow path: same model walk, with the context needed to describe the mismatch
     case = {"ops": [list(o) for o in ops]}
-    exp, labels, nt = walk_model(ops)
+    exp, _, _ = walk_model(ops, detailed=True)
     notes: List[str] = []
     viols: List[Violation] = []
-    all_obs: Dict[str, List[Any]] = {"py": py_run(ops)}
+    all_obs: Dict[str, List[Any]] = {"py": py_obs}
     if "obs" in rs_res:
         for impl in ("rs", "rs-runtime"):
             all_obs[impl] = _rs_obs(rs_res["obs"], _RS_KEY[impl])
@@ -371,20 +417,8 @@ def evaluate(ops: Sequence[Op], rs_res: Dict[str, Any]) -> Tuple[List[Violation]
         viols += per[impl]
     if len(all_obs) == 3 and not viols:
         viols += check_temp_diff(ops, all_obs, case)
-    # informational: does the snapshot's dictionary form show the values the reads return?
-    for i, op in enumerate(ops):
-        if op[0] == "collect" and i < len(all_obs["py"]) and isinstance(all_obs["py"][i], dict):
-            d = all_obs["py"][i]
-            m = {e.name: e.value for e in _exp_all_at(ops, i)}
-            same = all(d.get(k.lower()) == m[k] for k in ("PC", "BA", "I", "X", "Y", "U", "S", "F"))
-            labels.append("py-to_dict:" + ("matches-reads" if same else "differs-from-reads"))
     labels += sorted(set(notes))
     return viols, labels, nt
-
-
-def _exp_all_at(ops: Sequence[Op], i: int) -> List[Expect]:
-    exp, _, _ = walk_model(list(ops[:i]) + [["all"]])
-    return exp[-1]
 
 
 # --------------------------------------------------------------------------------------------------------
@@ -470,7 +504,7 @@ def sweep_cases(tier: str) -> Iterator[Tuple[str, List[Op]]]:
                     yield "sweep:bits", pre + [_write_op(t, v), ["all"], ["rtb" if bit % 2 else "rt"], ["all"]]
 
 
-def _hyp_sequences(seed: int, n: int) -> List[List[Op]]:
+def _hyp_sequences(seed: int, n: int, min_ops: int = 1) -> List[List[Op]]:
     import hypothesis
     from hypothesis import HealthCheck, given, settings, strategies as st
 
@@ -488,7 +522,7 @@ def _hyp_sequences(seed: int, n: int) -> List[List[Op]]:
     @hypothesis.seed(seed)
     @settings(max_examples=n, deadline=None, database=None, report_multiple_bugs=False,
               suppress_health_check=list(HealthCheck), phases=[hypothesis.Phase.generate])
-    @given(st.lists(op, min_size=1, max_size=50), st.booleans())
+    @given(st.lists(op, min_size=min_ops, max_size=50), st.booleans())
     def collect(ops: List[Tuple[Any, ...]], dense: bool) -> None:
         out: List[Op] = []
         for o in ops:
@@ -531,7 +565,8 @@ def _shard(task: Tuple[str, int, int, int, str, int]) -> Report:
     kind, shard, nshards, seed, tier, n = task
     rep = Report()
     if kind == "hyp":
-        items = [("hypothesis", ops) for ops in _hyp_sequences(seed, n)]
+        # odd shards generate long histories only (Hypothesis otherwise favours short lists)
+        items = [("hypothesis", ops) for ops in _hyp_sequences(seed, n, 1 if shard % 2 == 0 else 16)]
         eval_batch(items, rep)
     else:
         items = [(fam, ops) for k, (fam, ops) in enumerate(sweep_cases(tier)) if k % nshards == shard]
@@ -556,7 +591,9 @@ def run(ctx: Ctx) -> Report:
     for i in range(n_sweep):
         tasks.append(("sweep", i, n_sweep, ctx.seed, ctx.tier, 0))
     for i in range(n_hyp_shards):
-        tasks.append(("hyp", i, n_hyp_shards, ctx.shard_seed(i), ctx.tier, n_hyp))
+        # not ctx.shard_seed(i): mix32(seed, i, ..) xors seed and i before mixing, so small seeds would only
+        # permute one set of shard seeds (seed 1 shard 1 == seed 2 shard 2); mix the run seed in first.
+        tasks.append(("hyp", i, n_hyp_shards, mix32(0xC08, ctx.seed, i, 0x5EED), ctx.tier, n_hyp))
     reports = ctx.pmap(_shard, tasks)
     rep = ctx.merge_reports(reports)
     check_arch_table(rep)
@@ -616,7 +653,7 @@ def shrink(ctx: Ctx, v: Violation) -> Violation:
     if not isinstance(v.case, dict) or "ops" not in v.case:
         return v
     key = v.key()
-    t_end = time.time() + 45  # budget only bounds the search effort; it never affects a verdict
+    t_end = time.time() + 20  # budget only bounds the search effort; it never affects a verdict
     ops = [list(o) for o in v.case["ops"]]
     best = v
     changed = True
